@@ -64,6 +64,10 @@ def sources(text, path):
 
 def same_xml(a, b):
     from lxml import etree
+    try:
+        etree.fromstring(a.encode("utf-8"))
+    except etree.XMLSyntaxError:
+        return False            # the text written to this destination is not even well-formed
     return etree.tostring(etree.fromstring(a.encode("utf-8")), method="c14n") == etree.tostring(etree.fromstring(b.encode("utf-8")), method="c14n")
 
 
